@@ -95,6 +95,7 @@ def stepping_graph(arch, code, entry, extra_roots=()):
         order.append(a)
         for sa, c in r["successors"]:
             work.append(sa)
+    unliftable = sorted(a for a, u in unit.items() if u is None)
     for a in order:
         first, ex, succ = unit[a]
         for sa, c in succ:
@@ -106,7 +107,7 @@ def stepping_graph(arch, code, entry, extra_roots=()):
     for b in blocks:
         for j, ins in enumerate(b["instructions"]):
             ins["index"] = j
-    return {"entry": unit[entry][0] if unit.get(entry) else None, "exit": None, "blocks": blocks, "edges": edges}, unit
+    return {"entry": unit[entry][0] if unit.get(entry) else None, "exit": None, "blocks": blocks, "edges": edges, "unliftable": unliftable}, unit
 
 
 def ground_F(F, entry_addr, manual=False):
@@ -141,6 +142,11 @@ def check_one(item):
     if "panic" in r or "died" in r:
         res.update(status="panic", detail=str(r)[:300]); return res
     if not r.get("ok"):
+        # refusing is fine when some reachable instruction cannot be lifted on its own; otherwise the
+        # failure is an artefact of function recovery (translation windows, block splitting)
+        S0, _ = stepping_graph(arch, code, item["entry"], [])
+        if S0["entry"] is not None and not S0.get("unliftable") and not item.get("manual_edges"):
+            res.update(status="ground-fail", ground=[f"translate_function fails ({str(r.get('error'))[:120]}) although every reachable instruction lifts on its own"]); return res
         res.update(status="rejected", detail=r.get("error")); return res
     F = r["function"]
     errs = ground_F(F, item["entry"], bool(item.get("manual_edges")))
@@ -306,7 +312,7 @@ def main():
         elif st in ("ground-fail", "panic", "sorterr"):
             rep.ground["checked"] += 1; rep.ground["failed"] += 1
             what = (r.get("ground") or [r.get("detail")])[0]
-            kind = "instruction " + str(what).split(" ", 3)[-1] if str(what).startswith("instruction at") else "unguarded edge next to other edges" if "unguarded edge" in str(what) else ("entry block is not the function address" if "entry block starts" in str(what) else st)
+            kind = "translate_function fails on liftable code" if str(what).startswith("translate_function fails") else "instruction " + str(what).split(" ", 3)[-1] if str(what).startswith("instruction at") else "unguarded edge next to other edges" if "unguarded edge" in str(what) else ("entry block is not the function address" if "entry block starts" in str(what) else st)
             rep.violation(f"function-recovery/{kind}", f"{r['id']}: {what}", {"program": it, "result": {k_: v_ for k_, v_ in r.items() if k_ != 'function'}})
         elif st == "sat":
             rep.count("sat")
